@@ -181,7 +181,9 @@ namespace chaiscript {
           break;
       }
     }
-    return exponent ? base * std::pow(T(10), t * static_cast<T>(exponent)) : t;
+    // the power of ten is formed in long double: 10^e may lie outside T's range although
+    // base * 10^e does not (0e39f, 1000000000e-46f, 0.000001e314)
+    return exponent ? static_cast<T>(static_cast<long double>(base) * std::pow(static_cast<long double>(10), static_cast<long double>(t) * exponent)) : t;
   }
 
   struct str_equal {
